@@ -31,6 +31,8 @@ func init() {
 func runC20(w *World, r *Report) {
 	hrFailsafeReactions(w, r, "R7")
 	hrSnapshotsAlwaysWritten(w, r, "R7")
+	hrManageSendsEverything(w, r, "R7")
+	hrCfgSPOEBackendName(w, r, "R2")
 	hrGlobalUnmanagedWithEndpoints(w, r, "R7")
 	hrTruncatingWrite(w, r, "R7")
 	hrHealthyIsConjunction(w, r, "R2")
